@@ -45,6 +45,8 @@ pub struct NHistory {
     sealed_seen: HashMap<(u8, Vec<u8>, u64), Vec<u8>>, // (direction, key, sequence) -> datagram
     delivered_to_server: HashSet<(SocketAddr, Vec<u8>)>,
     token_seen_from: HashMap<u64, HashSet<SocketAddr>>, // token -> addresses its request was presented from
+    token_sessions: HashMap<u64, u32>,  // token -> sessions established with it
+    owner_crafted: bool,                 // the datagram being delivered was sealed by the owner of the token (op 155)
     delivered_to_client: HashMap<u64, HashSet<Vec<u8>>>,
 }
 
@@ -101,6 +103,8 @@ impl NHistory {
             sealed_seen: HashMap::new(),
             delivered_to_server: HashSet::new(),
             token_seen_from: HashMap::new(),
+            token_sessions: HashMap::new(),
+            owner_crafted: false,
             delivered_to_client: HashMap::new(),
         }
     }
@@ -110,6 +114,7 @@ impl NHistory {
     }
     fn violate(&mut self, prop: &'static str, msg: String) {
         if !self.res.violations.iter().any(|v| v.prop == prop) {
+            let msg: String = if msg.len() > 360 { format!("{}...", msg.chars().take(360).collect::<String>()) } else { msg };
             self.res.violations.push(Violation { prop, step: self.step, msg });
         }
     }
@@ -167,6 +172,14 @@ impl NHistory {
     }
 
     /// C17: no two different datagrams sealed under one key with one sequence number
+    /// the properties are scoped to one session per connect token; a token that established a second session is out of scope
+    fn token_reused_key(&self, key: &[u8]) -> bool {
+        self.tokens.iter().any(|(t, ti)| (ti.c2s[..] == key[..] || ti.s2c[..] == key[..]) && self.token_sessions.get(t).copied().unwrap_or(0) > 1)
+    }
+    fn client_token_reused(&self, k: u64) -> bool {
+        self.client_token.get(&k).map(|t| self.token_sessions.get(t).copied().unwrap_or(0) > 1).unwrap_or(false)
+    }
+
     fn check_nonce(&mut self, dir: u8, k: u64, bytes: &[u8]) {
         let (ty, seq) = match prefix_info(bytes) {
             Some(x) => x,
@@ -193,6 +206,9 @@ impl NHistory {
             Some(k) => k,
             None => return,
         };
+        if self.token_reused_key(&key) {
+            return;
+        }
         match self.sealed_seen.get(&(dir, key.clone(), seq)) {
             Some(prev) if prev != bytes => {
                 self.violate("C17", format!("two different datagrams sealed under one key with sequence {} ({} side): {} and {}", seq, if dir == 0 { "client" } else { "server" }, b(prev).to_text(), b(bytes).to_text()));
@@ -228,8 +244,11 @@ impl NHistory {
             self.violate("C07", format!("NetcodeServer::process_packet panicked on a datagram of {} bytes from {}", data.len(), from));
             return;
         }
-        self.delivered_to_server.insert((from, data.clone()));
         let after = self.server_state();
+        if before != after {
+            // only a datagram that had an effect can later be a replay of an accepted one
+            self.delivered_to_server.insert((from, data.clone()));
+        }
         let r = obs.as_l().map(|v| v.to_vec()).unwrap_or_default();
         let kind = r.first().and_then(|t| t.as_u64()).unwrap_or(0);
         // a valid, unmodified request from this address
@@ -260,7 +279,7 @@ impl NHistory {
                     if plen >= data.len() {
                         self.violate("C19", format!("reply of {} bytes to a datagram of {} bytes from an unconnected address", plen, data.len()));
                     }
-                    if genuine_of.is_none() && !is_request {
+                    if genuine_of.is_none() && !is_request && !self.owner_crafted {
                         self.violate("C19", format!("the server answered a modified or fabricated datagram from {}", from));
                     }
                 }
@@ -268,7 +287,8 @@ impl NHistory {
             }
         }
         // C07: an inauthentic or replayed datagram changes nothing
-        let must_be_noop = known_inauthentic || (replayed && !is_request);
+        let reused = genuine_of.map(|(k, _)| self.client_token_reused(k)).unwrap_or(false);
+        let must_be_noop = known_inauthentic || (replayed && !is_request && !reused);
         if must_be_noop {
             self.feat("inauthentic_to_server");
             if before != after {
@@ -309,7 +329,7 @@ impl NHistory {
                         if expected.as_ref() != Some(&p) {
                             self.violate("C04", format!("the server surfaced a payload that differs from the one client {} generated", k));
                         }
-                        if surfaced > 1 {
+                        if surfaced > 1 && !self.client_token_reused(k) {
                             self.violate("C04", format!("a payload datagram of client {} surfaced {} times at the server", k, surfaced));
                         }
                         if tok_id != Some(id) {
@@ -337,6 +357,10 @@ impl NHistory {
                     self.connected.insert(id, a);
                     // C05: backed by a valid request from the same address with this id and user data
                     let ok = self.valid_requests.iter().any(|(from, t)| *from == a && self.tokens.get(t).map(|ti| ti.id == id && ti.user == user).unwrap_or(false));
+                    let toks: Vec<u64> = self.valid_requests.iter().filter(|(from, t)| *from == a && self.tokens.get(t).map(|ti| ti.id == id && ti.user == user).unwrap_or(false)).map(|(_, t)| *t).collect();
+                    for t in toks.iter().collect::<HashSet<_>>() {
+                        *self.token_sessions.entry(*t).or_insert(0) += 1;
+                    }
                     if !ok {
                         self.violate("C05", format!("client id {} reported connected from {} without a valid connect token request from that address carrying this id and user data", id, a));
                     }
@@ -376,8 +400,10 @@ impl NHistory {
             self.violate("C07", format!("NetcodeClient::process_packet panicked on a datagram of {} bytes", data.len()));
             return;
         }
-        self.delivered_to_client.entry(k).or_default().insert(data.clone());
         let after = self.world.client_state_tree(k);
+        if before != after {
+            self.delivered_to_client.entry(k).or_default().insert(data.clone());
+        }
         let surfaced = match obs.as_l() {
             Some([Tree::N(1), Tree::B(p)]) => Some(p.clone()),
             _ => None,
@@ -682,9 +708,9 @@ impl NHistory {
                 buf.truncate(len);
                 self.feat("crossed_challenge_response");
                 // authentic for the session at `from` only if it is that session's own challenge
-                let own = k == kc;
+                self.owner_crafted = true;
                 self.to_server(from, buf, None, false);
-                let _ = own;
+                self.owner_crafted = false;
             }
             170 => {
                 // (170 k rounds): good rounds for client k - everything emitted is delivered, ticks of 250 ms
